@@ -47,12 +47,21 @@ struct Rec {
     id: u64,
     log: Arc<Mutex<Vec<u64>>>,
     code: u64,
+    text: bool,
+    server: String,
 }
 impl EndpointHandler<()> for Rec {
     fn handle_request(&self, _req: &Request, _arg: &()) -> Response {
         self.log.lock().unwrap().push(self.id);
         let mut r = Response::new(Version::Http11, respbuild::status(self.code));
         r.set_body(micro_http::Body::new(format!("h{}", self.id)));
+        // a handler may set its own content type / server identity: the router stamps over them
+        if self.text {
+            r.set_content_type(MediaType::PlainText);
+        }
+        if !self.server.is_empty() {
+            r.set_server(&self.server);
+        }
         r
     }
 }
@@ -180,7 +189,8 @@ pub fn run_case(case: &Value, out: &mut dyn Write) {
                 let mut added = vec![];
                 for (i, rt) in case["routes"].as_array().unwrap().iter().enumerate() {
                     let path = String::from_utf8_lossy(&obs::from_bytes(&rt["path"])).to_string();
-                    let h = Rec { id: i as u64 + 1, log: log.clone(), code: rt["code"].as_u64().unwrap_or(200) };
+                    let h = Rec { id: i as u64 + 1, log: log.clone(), code: rt["code"].as_u64().unwrap_or(200),
+                                  text: rt["ctype"].as_str() == Some("text"), server: rt["server"].as_str().unwrap_or("").to_string() };
                     let r = routes.add_route(respbuild::method(rt["m"].as_str().unwrap()), path, Box::new(h));
                     added.push(r.is_ok());
                 }
